@@ -20,7 +20,9 @@ for pid in ids:
         engine=','.join(e['name'] for e in c['engines']) or 'lean-only',
         level_claimed=dict(category='proof', text=c.get('level_text', P.LEVEL_TEXT.get(pid, '')), design_ref=c.get('design_ref', 'DESIGN.md §5 ' + pid)),
         level_note=c.get('level_note', 'Trusted: Lean kernel + propext/Classical.choice/Quot.sound; factgen; the correspondence harness; SDK/geth internals are modelled, not verified.'),
-        technique=c.get('technique', 'Lean 4 theorems over a hand-written executable model + regenerated fact obligations + differential correspondence against the real code'),
+        technique=c.get('technique', 'Lean 4 theorems over a hand-written executable model + regenerated fact obligations + differential correspondence against the real code')
+                  + (' + Go functions translated to Lean on every run (go2lean, Facts/GenCode.lean) with kernel-checked tie theorems to the model (' + ', '.join(m for m in c['lean_modules'] if m.startswith('Facts.Tie') and m != 'Facts.TieMeta') + ')'
+                     if any(m.startswith('Facts.Tie') and m != 'Facts.TieMeta' for m in c['lean_modules']) else ''),
     ))
 na = []
 for pid in ids:
